@@ -3,6 +3,8 @@ CONSTANTS MultipliedEndForNominal <- Off
           StrictBounds <- Off
           FirstAfterIgnoresEnd <- Off
           MaxTake = 6
+          ShiftMovesStoredPoints <- Off
+          Shifts <- NoShifts
           Intervals <- ExactOnly
           Fmts <- F134
           Ns <- NsAll
